@@ -41,7 +41,8 @@ Definition p_blocked (p : list Z) : bool := (pf p 1 =? 0) && (3 * pf p 3 <? pf p
 (** the part of [Recovery.needs] visible in a probe; [zr]: the scenario uses 0-RTT *)
 Definition p_needs (zr : bool) (ep : Z) (p : list Z) : bool :=
   ((pf p 0 =? 1) && (0 <? pf p 5))
-  || ((pf p 0 =? 0) && (ep =? 0) && ((negb zr && (0 <? pf p 5)) || (pf p 27 =? 0)))
+  || ((pf p 0 =? 0) && (ep =? 0)
+      && (if zr then (pf p 5 =? 0) && (pf p 27 =? 0) else (0 <? pf p 5) || (pf p 27 =? 0)))
   || ((pf p 0 =? 0) && (ep =? 1) && (pf p 1 =? 0) && (pf p 27 =? 2) && (0 <? pf p 5)).
 
 Definition armed_ok (zr : bool) (p : list Z) : bool :=
